@@ -149,6 +149,23 @@ Theorem c07_reopen_changes_nothing : forall d t1 t2 t3 t4 t5,
 Proof. exact reopen_id. Qed.
 Print Assumptions c07_reopen_changes_nothing.
 
+(** at EVERY crash point and every clean stop of EVERY workload: if the mailbox
+    table holds a row, the next GetUserDB leaves every row of the store as it
+    is — mailboxes (names, UIDVALIDITY, UIDNEXT), links, messages,
+    subscriptions; a default mailbox that was deleted or renamed away
+    (acknowledged) does not come back.  The check compares the complete
+    mailbox rows and subscriptions of every store before and after the first
+    open of a restarted server (clean restarts inside traced workloads, and
+    after every kill of the crash replay). *)
+Theorem c07_reopen_keeps_every_row : forall h k t1 t2 t3 t4 t5,
+  let c := crash_at absent h k in
+  mboxes (d_st c) <> [] ->
+  let d' := fst (big c (COpen t1 t2 t3 t4 t5)) in
+  d_st d' = d_st c /\ d_msgs d' = d_msgs c /\ d_subs d' = d_subs c /\ d_deliv d' = d_deliv c
+  /\ run_steps c (micro c (COpen t1 t2 t3 t4 t5)) = d'.
+Proof. exact reopen_keeps_rows. Qed.
+Print Assumptions c07_reopen_keeps_every_row.
+
 (** ---- regression: the old store creation (before the fix) ---------------------------- *)
 
 (** With the old GetUserDB ([old_open_steps]: nothing when the file exists) a
